@@ -8,6 +8,7 @@ package vsched
 import (
 	"fmt"
 	"reflect"
+	"runtime"
 	rsync "sync"
 )
 
@@ -31,6 +32,7 @@ const (
 )
 
 type gor struct {
+	goid    int64 // runtime goroutine id (to tell managed callers from goroutines the library started itself)
 	id      int
 	name    string
 	resume  chan int // value = chosen case index for select
@@ -185,6 +187,7 @@ func (s *Sched) spawn(name string, f func()) *gor {
 	g.pending = &op{kind: opStart, label: "start " + name}
 	s.gors = append(s.gors, g)
 	go func() {
+		g.goid = goid()
 		<-g.resume
 		defer func() {
 			if x := recover(); x != nil {
@@ -373,10 +376,29 @@ func GoNamed(name string, f func()) {
 }
 
 // Yield is a scheduling point with no effect (environment steps: reader answers, cancel calls).
+// Called from a goroutine the scheduler does not manage (one the code under test started itself and
+// joins before returning) it does nothing.
 func Yield(label string) {
 	if s := current(); s != nil {
+		if s.cur == nil || s.cur.goid != goid() {
+			return
+		}
 		s.park(&op{kind: opYield, label: label})
 	}
+}
+
+// goid parses the current goroutine's id out of its stack header ("goroutine 123 [running]:").
+func goid() int64 {
+	var buf [64]byte
+	n := runtime.Stack(buf[:], false)
+	var id int64
+	for _, c := range buf[len("goroutine "):n] {
+		if c < '0' || c > '9' {
+			break
+		}
+		id = id*10 + int64(c-'0')
+	}
+	return id
 }
 
 type Mutex struct {
